@@ -50,13 +50,16 @@ fn md_pad_byte(msg: &[u8], bs: usize, lf: usize, k: usize) -> u8 {
         (((n as u64) * 8) >> (8 * (total - 1 - k))) as u8
     }
 }
-fn check_trace(msg: &[u8], bs: usize, lf: usize) {
+fn check_trace(msg: &[u8], bs: usize, lf: usize) { check_trace_from(msg, bs, lf, 0) }
+/// the trace since the last `take()` is the padded message from byte `skip` on (`skip` = the whole blocks that a context had
+/// already compressed, and the recorder had already been emptied of, when it was cloned)
+fn check_trace_from(msg: &[u8], bs: usize, lf: usize, skip: usize) {
     let (t, n) = take();
     let total = (msg.len() + 1 + lf + bs - 1) / bs * bs;
-    assert!(n == total, "number of bytes compressed");
+    assert!(n == total - skip, "number of bytes compressed");
     let mut k = 0;
-    while k < total {
-        assert!(t[k] == md_pad_byte(msg, bs, lf, k), "padded message byte");
+    while k < total - skip {
+        assert!(t[k] == md_pad_byte(msg, bs, lf, skip + k), "padded message byte");
         k += 1;
     }
 }
@@ -76,7 +79,7 @@ fn sha256_case<const N: usize>(cut: usize) {
     let _ = c.finalize();
     check_trace(&m, 64, 8);
     let _ = d.update(&m[cut..]).finalize();
-    check_trace(&m, 64, 8);
+    check_trace_from(&m, 64, 8, cut / 64 * 64);
     kani::cover!(true);
 }
 fn sha512_case<const N: usize>(cut: usize) {
@@ -93,7 +96,7 @@ fn sha512_case<const N: usize>(cut: usize) {
     let _ = c.finalize();
     check_trace(&m, 128, 16);
     let _ = d.update(&m[cut..]).finalize();
-    check_trace(&m, 128, 16);
+    check_trace_from(&m, 128, 16, cut / 128 * 128);
     kani::cover!(true);
 }
 // @harness props=C01,C02 kind=bounded bound=len=0 tier=quick timeout=600
